@@ -11,9 +11,11 @@ from .props_r import RProp, has_nested
 from .props_sched import upgrade
 
 
-def flattenable(cfg):
+def flattenable(cfg, slow=False):
     """ids of nested schedulers that the sentence applies to (and for which the comparison is
-    meaningful: the parent has no window either, handlers take no time, nothing never ends)"""
+    meaningful: the parent has no window either, handlers take no time, nothing never ends).
+    slow=True: those excluded only because a job of theirs has a shutdown handler of non-zero (finite)
+    duration, in trees where no critical job raises (known finding F10)"""
     jobs = cfg["jobs"]
     out = []
     # with a window anywhere in the tree the order in which queued jobs get a slot follows the
@@ -47,9 +49,18 @@ def flattenable(cfg):
             a = jobs[a]["parent"]
         if tmo:
             continue
-        if any(jobs[k]["sched"] or jobs[k]["forever"] or jobs[k]["dur"] is None or jobs[k]["sdur"] != 0 for k in ks):
+        if any(jobs[k]["sched"] or jobs[k]["forever"] or jobs[k]["dur"] is None or jobs[k]["sdur"] is None for k in ks):
             continue
-        out.append(m)
+        has_slow = any(jobs[k]["sdur"] != 0 for k in ks)
+        if slow:
+            # (directly under the root: dissolved there, the handlers run at the very end of the whole
+            # run; inside another nested scheduler they would still delay that scheduler's end, under
+            # its own shutdown_timeout, and the difference could go either way)
+            if has_slow and p == 0 and jobs[m]["sdto"] is not None and not any(
+                    (not x["sched"]) and x["crit"] and x["out"] == "exc" for x in jobs):
+                out.append(m)
+        elif not has_slow:
+            out.append(m)
     return out
 
 
@@ -171,6 +182,48 @@ def _run_flat(arg):
     return []
 
 
+F10_SIGNATURE = "c10_nested_shutdown_delays_successors"
+F10_TEXT = ("a nested scheduler whose jobs have shutdown handlers of non-zero duration ends only after its own shutdown "
+            "phase (C13: its jobs receive co_shutdown when the nested run ends), so the jobs that require it start later "
+            "than in the flattened graph, where those handlers run at the end of the enclosing run; witness "
+            "root{m{x: 1 s, co_shutdown 2 s}, y requires m}: y runs from 3 to 4, in the flattened graph from 1 to 2")
+
+
+def _run_flat_slow(arg):
+    """pair (tree, tree with m dissolved) for a nested scheduler with slow shutdown handlers in a tree
+    where no critical job raises: [] if the timelines agree, [{'known': F10}, ...] if every difference is
+    a job that starts / ends later in the nested tree, else the differences (a violation)"""
+    cfg, m = arg
+    from .robserve import run_config
+    c2, ren = flatten(cfg, m)
+    if c2 is None:
+        return None
+    t1, o1 = timeline(run_config(cfg)["log"], cfg)
+    t2, o2 = timeline(run_config(c2)["log"], c2)
+    INF = float("inf")
+    diffs, other = [], []
+    for old, new in sorted(ren.items()):
+        if cfg["jobs"][old]["sched"]:
+            continue
+        a, b = t1.get(old), t2.get(new)
+        if (list(a) if a else None) == (list(b) if b else None):
+            continue
+        d = {"job": old, "job_in_flattened_graph": new, "nested_tree (start, end, how)": a,
+             "flattened_graph (start, end, how)": b}
+        sa, sb = (a[0] if a else INF), (b[0] if b else INF)
+        ea, eb = (a[1] if a and a[1] is not None else INF), (b[1] if b and b[1] is not None else INF)
+        ha, hb = (a[2] if a else None), (b[2] if b else None)
+        if sa >= sb and ea >= eb and (ha == hb or ha is None or ha == "cancelled"):
+            diffs.append(d)
+        else:
+            other.append(d)
+    if other:
+        return other
+    if diffs:
+        return [{"known": F10_SIGNATURE}] + diffs
+    return []
+
+
 F9_SIGNATURE = "c10_divergence_from_first_critical_failure_on"
 F9_TEXT = ("from the first instant T at which a critical job raises, a tree with critical nested schedulers (no window, "
            "timeout or forever job) and its flattened graph may part: the nested run finishes cancelling and shutting down "
@@ -208,10 +261,37 @@ class C10(RProp):
         global _POOL
         results = RProp.evaluate(self, cases)
         work = []
+        slow_work = []
         for i, cfg in enumerate(cases):
             fl = flattenable(cfg)
             if fl:
                 work.append((i, fl[0]))
+            else:
+                sl = flattenable(cfg, slow=True)
+                if sl:
+                    slow_work.append((i, sl[0]))
+        if slow_work:
+            args = [(cases[i], m) for i, m in slow_work]
+            if len(args) < 32:
+                outs = [_run_flat_slow(a) for a in args]
+            else:
+                if _POOL is None:
+                    _POOL = multiprocessing.get_context("fork").Pool(min(16, os.cpu_count() or 4))
+                outs = _POOL.map(_run_flat_slow, args, chunksize=8)
+            for (i, m), d in zip(slow_work, outs):
+                results[i]["tags"]["flattened_slow_shutdown"] = 1
+                results[i]["traces"] = results[i].get("traces", 0) + 2
+                if d and d[0].get("known"):
+                    if results[i]["status"] == "ok":
+                        results[i].update(status="specfail", signature=d[0]["known"],
+                                          detail={"what": "known finding F10: " + F10_TEXT, "differences": d[1:7]})
+                elif d:
+                    if results[i]["status"] != "specfail" or results[i].get("signature"):
+                        results[i]["status"] = "specfail"
+                        results[i].pop("signature", None)
+                        results[i]["detail"] = {"what": "dissolving the critical nested scheduler %d (slow shutdown handlers) "
+                                                        "into its parent makes jobs run EARLIER in the nested tree, or with "
+                                                        "another outcome" % m, "differences": d[:6]}
         if work:
             args = [(cases[i], m) for i, m in work]
             if len(args) < 32:
@@ -238,8 +318,8 @@ class C10(RProp):
         return results
 
     def known_finding(self, case, res):
-        if res.get("signature") == F9_SIGNATURE and res["status"] == "specfail":
-            return core.listed_finding("C10", F9_SIGNATURE)
+        if res.get("signature") in (F9_SIGNATURE, F10_SIGNATURE) and res["status"] == "specfail":
+            return core.listed_finding("C10", res["signature"])
         return None
 
 
